@@ -29,8 +29,15 @@ func checkCertText(r *Report, p *Prog, rule string) {
 				for _, rf := range *c.Referrers() {
 					if ex, ok := rf.(*ssa.Extract); ok && ex.Index == 0 {
 						for _, r2 := range *ex.Referrers() {
-							if pc, ok := r2.(*ssa.Call); ok && pc.Call.StaticCallee() != nil && strings.HasPrefix(pc.Call.StaticCallee().String(), "crypto/x509.ParseCertificate") {
-								feeds = true
+							if pc, ok := r2.(*ssa.Call); ok && pc.Call.StaticCallee() != nil {
+								callee := pc.Call.StaticCallee()
+								if strings.HasPrefix(callee.String(), "crypto/x509.ParseCertificate") {
+									feeds = true
+								}
+								// (... or a module helper that parses the bytes it is handed)
+								if p.InLibrary(callee) && len(callsTo(callee, "crypto/x509.ParseCertificate", "crypto/x509.ParseCertificates")) > 0 {
+									feeds = true
+								}
 							}
 							// (the decode sits in a helper of the selector that hands the bytes back)
 							if _, isRet := r2.(*ssa.Return); isRet && fn != sel {
